@@ -13,12 +13,20 @@ from .report import AnalysisError
 
 
 class TPath:
-    __slots__ = ("parts", "conds", "ph")
+    __slots__ = ("parts", "conds", "ph", "env", "cnodes")
 
-    def __init__(self, parts=(), conds=(), ph=()):
+    def __init__(self, parts=(), conds=(), ph=(), env=(), cnodes=()):
         self.parts = tuple(parts)  # strings
         self.conds = tuple(conds)  # (expr string, polarity)
         self.ph = tuple(ph)  # (placeholder name, expression node)
+        self.env = tuple(env)  # (template variable, bound expression node) in binding order (`{% set x = expr %}` on this path)
+        self.cnodes = tuple(cnodes)  # (test node, polarity) parallel to conds, for propositional reasoning over paths
+
+    def binding(self, name: str):
+        for n, node in reversed(self.env):
+            if n == name:
+                return node
+        return None
 
     @property
     def text(self) -> str:
@@ -38,34 +46,181 @@ class TPath:
         return r[0] if r else None
 
 
+def _is_unique_name(N, node) -> bool:
+    """`'x' | to_template_unique_name`-like bindings: the variable *is* the identity of a generated name - never inlined"""
+    return any(isinstance(f, N.Filter) and "unique" in f.name for f in [node] + list(node.find_all(N.Filter)))
+
+
+def _string_building(N, node, p, depth=0) -> bool:
+    if depth > 6:
+        return False
+    if isinstance(node, N.Const):
+        return isinstance(node.value, str)
+    if isinstance(node, N.Name):
+        b = p.binding(node.name)
+        return b is not None and not _is_unique_name(N, b) and _string_building(N, b, p, depth + 1)
+    if isinstance(node, N.Add):
+        return _string_building(N, node.left, p, depth + 1) or _string_building(N, node.right, p, depth + 1)
+    if isinstance(node, N.Concat):
+        return True
+    if isinstance(node, N.Filter) and node.name == "format" and isinstance(node.node, N.Const) and isinstance(node.node.value, str):
+        return True
+    if isinstance(node, N.Mod) and isinstance(node.left, N.Const) and isinstance(node.left.value, str):
+        return True
+    if isinstance(node, N.CondExpr):
+        return _string_building(N, node.expr1, p, depth + 1) or _string_building(N, node.expr2, p, depth + 1)
+    return False
+
+
+def _inline_value(N, node, p, depth=0):
+    """the expression to print instead of a variable bound to `node`, or None to keep the variable opaque"""
+    if depth > 6 or _is_unique_name(N, node):
+        return None
+    if isinstance(node, N.Name):
+        b = p.binding(node.name)
+        if b is None:
+            return node
+        r = _inline_value(N, b, p, depth + 1)
+        return r if r is not None else node
+    if isinstance(node, N.CondExpr):
+        c = node.test
+        pol = True
+        while isinstance(c, N.Not):
+            c, pol = c.node, not pol
+        key = xs(c)
+        if (key, pol) in p.conds:
+            return _inline_value(N, node.expr1, p, depth + 1) or node.expr1
+        if (key, not pol) in p.conds:
+            return _inline_value(N, node.expr2, p, depth + 1) or node.expr2
+        return None
+    if _string_building(N, node, p):
+        return node
+    return None
+
+
+def _sub_of(N, p):
+    if p is None or not p.env:
+        return None
+    out = {}
+    for name, _node in p.env:
+        b = p.binding(name)
+        v = _inline_value(N, b, p)
+        if v is not None and not (isinstance(v, N.Name) and v.name == name):
+            out[name] = v
+    return out or None
+
+
+_FMT = None
+
+
+def _expand(N, e, p, depth=0):
+    """pieces (literal text | expression node) an output expression contributes on path p: template variables bound to
+    aliases or string-building expressions ('%s.count' | format(ref), ref + '.count', conditional aliases) are expanded"""
+    import re
+    if depth > 8:
+        return [e]
+    if isinstance(e, N.Name):
+        b = p.binding(e.name)
+        if b is not None:
+            v = _inline_value(N, b, p)
+            if v is not None and v is not e:
+                return _expand(N, v, p, depth + 1)
+        return [e]
+    if isinstance(e, N.Const) and isinstance(e.value, str):
+        return [e.value]
+    if isinstance(e, N.CondExpr):
+        v = _inline_value(N, e, p)
+        return _expand(N, v, p, depth + 1) if v is not None and v is not e else [e]
+    if not _string_building(N, e, p):
+        return [e]
+    if isinstance(e, N.Add):
+        return _expand(N, e.left, p, depth + 1) + _expand(N, e.right, p, depth + 1)
+    if isinstance(e, N.Concat):
+        out = []
+        for x in e.nodes:
+            out += _expand(N, x, p, depth + 1)
+        return out
+    fmt, args = None, None
+    if isinstance(e, N.Filter) and e.name == "format":
+        fmt, args = e.node.value, list(e.args)
+    elif isinstance(e, N.Mod):
+        fmt, args = e.left.value, (list(e.right.items) if isinstance(e.right, N.Tuple) else [e.right])
+    if fmt is not None:
+        specs = list(re.finditer(r"%(?:%|[-+ #0]*\d*(?:\.\d+)?[sdiuxXrf])", fmt))
+        real = [m for m in specs if m.group(0) != "%%"]
+        if len(real) != len(args):
+            return [e]
+        out, pos, k = [], 0, 0
+        for m in specs:
+            out.append(fmt[pos:m.start()])
+            pos = m.end()
+            if m.group(0) == "%%":
+                out.append("%")
+            else:
+                a = args[k]
+                k += 1
+                if isinstance(a, N.Const) and isinstance(a.value, (int, str)):
+                    out.append(str(a.value))
+                else:
+                    out += _expand(N, a, p, depth + 1)
+        out.append(fmt[pos:])
+        return [x for x in out if x != ""]
+    return [e]
+
+
 def render_paths(N, nodes, limit: int = 512, for_zero: bool = False, subst=None, prefix: str = "P") -> typing.List[TPath]:
     """enumerate the static text paths of a node list.
     subst(expr_node) may return a literal replacement string for an expression (e.g. an operator held in a variable)."""
     counter = [0]
     names: typing.Dict[str, str] = {}
 
-    def new_ph(e):
+    def cond_of(p, test, pol):
+        # `not c` taken == `c` not taken: one spelling per condition, so that equivalent templates give equal paths; a
+        # condition held in a template variable is spelled as the expression it was set to
+        while True:
+            if isinstance(test, N.Not):
+                test, pol = test.node, not pol
+            elif isinstance(test, N.Name) and p.binding(test.name) is not None and not _is_unique_name(N, p.binding(test.name)):
+                test = p.binding(test.name)
+            else:
+                break
+        with j2front.xs_with(_sub_of(N, p)):
+            return (xs(test), pol), (test, pol)
+
+    def new_ph(e, p=None):
         if subst is not None:
             r = subst(e)
             if r is not None:
                 return r, None
-        key = xs(e)
+        with j2front.xs_with(_sub_of(N, p) if p is not None else None):
+            key = xs(e)
         if key in names:  # the same expression gets the same identifier everywhere
             return names[key], None
         name = f"{prefix}z{counter[0]}z"  # detectable without word boundaries (C suffixes follow directly: Pz3zUL)
         counter[0] += 1
         names[key] = name
-        return name, (name, e)
+        return name, (name, key)
 
     def run(nodes, paths: typing.List[TPath]) -> typing.List[TPath]:
         for node in nodes:
             if isinstance(node, N.Output):
                 for e in node.nodes:
                     if isinstance(e, N.TemplateData):
-                        paths = [TPath(p.parts + (e.data,), p.conds, p.ph) for p in paths]
+                        paths = [TPath(p.parts + (e.data,), p.conds, p.ph, p.env, p.cnodes) for p in paths]
                     else:
-                        s, ph = new_ph(e)
-                        paths = [TPath(p.parts + (s,), p.conds, p.ph + ((ph,) if ph else ())) for p in paths]
+                        nxt = []
+                        for p in paths:
+                            parts, phs = [], []
+                            for piece in _expand(N, e, p):
+                                if isinstance(piece, str):
+                                    parts.append(piece)
+                                else:
+                                    s, ph = new_ph(piece, p)
+                                    parts.append(s)
+                                    if ph:
+                                        phs.append(ph)
+                            nxt.append(TPath(p.parts + tuple(parts), p.conds, p.ph + tuple(phs), p.env, p.cnodes))
+                        paths = nxt
             elif isinstance(node, N.If):
                 out = []
                 neg: typing.Tuple = ()
@@ -74,27 +229,28 @@ def render_paths(N, nodes, limit: int = 512, for_zero: bool = False, subst=None,
                     have = set(p.conds)
                     return not any((e, not pol) in have for e, pol in extra)
 
-                def cond(test, pol):
-                    # `not c` taken == `c` not taken: one spelling per condition, so that equivalent templates give equal paths
-                    while isinstance(test, N.Not):
-                        test, pol = test.node, not pol
-                    return (xs(test), pol)
-
-                for test, body in branches:
-                    extra = neg + (cond(test, True),)
-                    pre = [TPath(p.parts, p.conds + extra, p.ph) for p in paths if feasible(p, extra)]
-                    out.extend(run(body, pre))
-                    neg = neg + (cond(test, False),)
-                pre = [TPath(p.parts, p.conds + neg, p.ph) for p in paths if feasible(p, neg)]
-                out.extend(run(node.else_, pre) if node.else_ else pre)
+                for p in paths:
+                    negs, negn = (), ()
+                    for test, body in branches:
+                        (cs, cn) = cond_of(p, test, True)
+                        extra = negs + (cs,)
+                        if feasible(p, extra):
+                            out.extend(run(body, [TPath(p.parts, p.conds + extra, p.ph, p.env, p.cnodes + negn + (cn,))]))
+                        (ns, nn) = cond_of(p, test, False)
+                        negs, negn = negs + (ns,), negn + (nn,)
+                    if feasible(p, negs):
+                        q = TPath(p.parts, p.conds + negs, p.ph, p.env, p.cnodes + negn)
+                        out.extend(run(node.else_, [q]) if node.else_ else [q])
                 paths = out
             elif isinstance(node, N.For):
-                once = run(node.body, [TPath(p.parts, p.conds + ((f"for {xs(node.target)} in {xs(node.iter)}", True),), p.ph) for p in paths])
+                once = run(node.body, [TPath(p.parts, p.conds + ((f"for {xs(node.target)} in {xs(node.iter)}", True),), p.ph, p.env, p.cnodes) for p in paths])
                 paths = once + (paths if for_zero else [])
             elif isinstance(node, N.CallBlock) and "_do_assert" in xs(node.call) and node.call.args and xs(node.call.args[0]) == "False":
                 paths = []  # {% assert False %}: generation fails here, no text is produced on this path
             elif isinstance(node, (N.CallBlock, N.FilterBlock, N.Block)):
                 paths = run(node.body, paths)
+            elif isinstance(node, N.Assign) and isinstance(node.target, N.Name):
+                paths = [TPath(p.parts, p.conds, p.ph, p.env + ((node.target.name, node.node),), p.cnodes) for p in paths]
             elif isinstance(node, (N.Assign, N.AssignBlock, N.Macro, N.Import, N.FromImport, N.ExprStmt, N.Extends, N.Include)):
                 pass
             else:
